@@ -73,6 +73,9 @@ def groups():
                                         'w_advanceLine/c_advanceLine_callee', 'w_strToInt/c_strToInt_callee', 'w_strToIntSilent/c_strToIntSilent_callee'],
                                enforce='w_dispatchValue/c_dispatchValue_top'), timeout=1800,
                     bounded='BOUNDED stand-in: a RUN with at most 2 arguments (dispatchCallArgs inlined, recursion and the ARG loop unwound: --unwind 5), program table of capacity 4; nested argument values go through the callee contract'))
+    gs.append(Group('gen_backpatch', ['C03', 'C01', 'C04'], 'GenState::backpatch (Compiler/src/gen.cpp)', 'c_backpatch',
+                    _gen_build('gen_disp.c', 'backpatch', loops='gen_disp.loops.json.in'), timeout=1800, expect_loops=1,
+                    note='loop closed by a loop contract; N12 hook: pending positions are distinct instructions of the program whose label operands exist'))
     for (kr, kt, tier) in ((2, 3, 'quick'), (3, 4, 'thorough')):
         sfx = '' if tier == 'quick' else '_L'
         gs.append(Group('genU_popSymbols' + sfx, ['C03', 'C16', 'C04', 'C07', 'C02'], 'GenState::popSymbols (Compiler/src/gen.cpp)', 'c_popSymbols',
